@@ -5360,6 +5360,19 @@ class PyCdlib:
                         new_list.append((linkrec, is_pvd))
                 entry.inode.linked_records = new_list
 
+                # The boot info table only exists because of El Torito.
+                entry.inode.boot_info_table = None
+
+                if not new_list:
+                    # The El Torito entry was the last reference to this data
+                    # (the boot file was hidden with rm_hard_link), so the data
+                    # goes away with it.
+                    for index, ino in enumerate(self.inodes):
+                        if id(ino) == id(entry.inode):
+                            del self.inodes[index]
+                            num_bytes_to_remove += entry.inode.get_data_length()
+                            break
+
         num_bytes_to_remove += len(self.eltorito_boot_catalog.record())
 
         self.eltorito_boot_catalog = None
